@@ -263,8 +263,8 @@ struct TopoMachine : Machine {
       } else if (ks == "insert_misc") o.set("p", (int64_t)ops.below(1000)).set("n", (int64_t)ops.below(100000));
       else if (ks == "group") o.set("how", (int64_t)ops.below(6)).set("n", (int64_t)ops.below(3)).set("o", (int64_t)ops.below(1000)).set("stride", (int64_t)ops.below(3) + 1).set("mode", (int64_t)ops.below(9)).setu("bits", ops.next()).set("dm", (int64_t)ops.below(2)).set("kind", (int64_t)ops.below(8)).set("free", (int64_t)ops.below(100));
       else if (ks == "allow") o.set("mode", (int64_t)ops.below(5)).set("cm", ops.chance(1, 2) ? 0 : (int64_t)ops.below(9)).set("nm", ops.chance(1, 2) ? 0 : (int64_t)ops.below(9)).setu("bits", ops.next()).set("give", (int64_t)ops.below(1000));
-      else if (ks == "add_info") o.set("o", (int64_t)ops.below(1000)).set("name", (int64_t)ops.below(6)).set("v", (int64_t)ops.below(100000));
-      else if (ks == "modify_infos" || ks == "topo_info") o.set("o", (int64_t)ops.below(1000)).set("name", (int64_t)ops.below(6)).set("v", (int64_t)ops.below(100000)).set("op", (int64_t)ops.below(5)).set("nul", (int64_t)ops.below(8));
+      else if (ks == "add_info") o.set("o", (int64_t)ops.below(1000)).set("name", (int64_t)ops.below(10)).set("v", (int64_t)ops.below(100000));
+      else if (ks == "modify_infos" || ks == "topo_info") o.set("o", (int64_t)ops.below(1000)).set("name", (int64_t)ops.below(10)).set("v", (int64_t)ops.below(100000)).set("op", (int64_t)ops.below(5)).set("nul", (int64_t)ops.below(8));
       else if (ks == "set_subtype") o.set("o", (int64_t)ops.below(1000)).set("v", (int64_t)ops.below(100000)).set("io", (int64_t)ops.below(2));
       else if (ks == "set_userdata") o.set("o", (int64_t)ops.below(1000)).set("tok", (int64_t)ops.below(100000));
       p.ops.push_back(o);
